@@ -150,7 +150,10 @@ def gen(R, n, hi, cap):
         lo = 0.5
         # most requests moderate (the real builder costs ~1 ms per emitted move), a tail over the full range
         r = (lo, hi) if i % (16 if R.thorough else 12) == 0 else (lo, 2.0)
-        cases.append(tc.gen_case(R.rng, shapes[i % len(shapes)], ratio=r, max_samples=cap))
+        c = tc.gen_case(R.rng, shapes[i % len(shapes)], ratio=r, max_samples=cap)
+        if c is not None and i % 5 == 0 and not c.get("switch"):
+            c["warm"] = R.rng.choice([4.0, 8.0, 0.5])   # same request traced before at a coarser / finer resolution
+        cases.append(c)
     return cases
 
 
